@@ -42,7 +42,9 @@ pub fn early_write_then_read(x: u32, e: &Expr) -> bool {
         }
         Expr::Block(es) => es.last().is_some_and(|l| early_write_then_read(x, l)),
         Expr::While(..) | Expr::Until(..) | Expr::For(..) | Expr::Loop(_) => e.reads(x),
-        Expr::Map(entries) => entries.iter().any(|(_, v)| v.reads(x)),
+        // the map is created in x's register first: an entry value that reads x sees the new
+        // (empty) map, one that assigns x replaces the map under construction
+        Expr::Map(entries) => entries.iter().any(|(_, v)| v.reads(x) || v.assigns(x)),
         _ => false,
     }
 }
@@ -288,6 +290,16 @@ fn placement_violation(e: &Expr, stmt: bool, in_loop: bool, valued: bool, val_he
             }
         }
         Expr::Tuple(es) if es.is_empty() => Some("empty-tuple"),
+        Expr::Interp(parts) => {
+            // layout limits of string placeholders (the lexer's subject, C09/C10/C15): no nested
+            // interpolated string and no map literal inside a placeholder
+            for p in parts {
+                if p.any(&|x| matches!(x, Expr::Interp(_) | Expr::Map(_))) {
+                    return Some("nested-interpolation-or-map-in-placeholder");
+                }
+            }
+            e.children().iter().find_map(|c| sub(c, false, val_here))
+        }
         _ => e.children().iter().find_map(|c| sub(c, false, val_here)),
     }
 }
